@@ -42,6 +42,8 @@ pub async fn run_line(line: &str) -> String {
         "idle_check" => ops_dispatch::idle_check(&args),
         "config_load" => ops_config::config_load(&args).await,
         "udp_reader_error" => ops_config::udp_reader_error(&args).await,
+        "socks_select" => ops_config::socks_select(&args),
+        "auth_check" => ops_config::auth_check(&args).await,
         "milu_parse" => ops_milu::milu_parse(&args),
         "milu_eval" => ops_milu::milu_eval(&args),
         "req_texts" => ops_milu::req_texts(&args),
